@@ -106,7 +106,7 @@ def raw_of (x):
 # ------------------------------------------------------------------------------------
 OCT_Q = [0, 1, 127, 128, 254, 255]
 OCT_T_CTOR = [0, 1, 2, 9, 10, 63, 64, 99, 100, 127, 128, 172, 191, 192, 223, 224, 239, 240, 254, 255]
-OCT_T_NET = [0, 1, 10, 100, 127, 128, 172, 192, 224, 240, 254, 255]
+OCT_T_NET = OCT_T_CTOR
 
 def v4_parts (octs):
   return [[o] for o in octs]
@@ -186,16 +186,16 @@ def chk_v4net (case, k):
   if not okk: return
   inside = R.v4_contains(N, b, n)          # True by construction; asked of the stdlib anyway
   cidr = "%s/%d" % (nt, b)
-  k.eq("ipv4-net:inNetwork-str", ("IPAddr('%s').inNetwork('%s')", at, cidr), inside, a.inNetwork, cidr)
-  k.eq("ipv4-net:inNetwork-str", ("IPAddr('%s').in_network('%s')", at, cidr), inside, a.in_network, cidr)
-  k.eq("ipv4-net:inNetwork-args-bits", ("IPAddr('%s').inNetwork('%s', %d)", at, nt, b), inside, a.inNetwork, nt, b)
-  k.eq("ipv4-net:inNetwork-args-bits", ("IPAddr('%s').inNetwork(IPAddr('%s'), %d)", at, nt, b), inside,
+  k.eq("ipv4-net:inNetwork", ("IPAddr('%s').inNetwork('%s')", at, cidr), inside, a.inNetwork, cidr)
+  k.eq("ipv4-net:inNetwork", ("IPAddr('%s').in_network('%s')", at, cidr), inside, a.in_network, cidr)
+  k.eq("ipv4-net:inNetwork", ("IPAddr('%s').inNetwork('%s', %d)", at, nt, b), inside, a.inNetwork, nt, b)
+  k.eq("ipv4-net:inNetwork", ("IPAddr('%s').inNetwork(IPAddr('%s'), %d)", at, nt, b), inside,
        lambda: a.inNetwork(IP(R.v4_raw(N)), b))
-  k.eq("ipv4-net:inNetwork-args-mask", ("IPAddr('%s').inNetwork('%s', '%s')", at, nt, mt), inside, a.inNetwork, nt, mt)
-  k.eq("ipv4-net:inNetwork-str-mask", ("IPAddr('%s').inNetwork('%s/%s')", at, nt, mt), inside, a.inNetwork, nt + "/" + mt)
-  k.eq("ipv4-net:inNetwork-tuple", ("IPAddr('%s').inNetwork((IPAddr('%s'), %d))", at, nt, b), inside,
+  k.eq("ipv4-net:inNetwork", ("IPAddr('%s').inNetwork('%s', '%s')", at, nt, mt), inside, a.inNetwork, nt, mt)
+  k.eq("ipv4-net:inNetwork", ("IPAddr('%s').inNetwork('%s/%s')", at, nt, mt), inside, a.inNetwork, nt + "/" + mt)
+  k.eq("ipv4-net:inNetwork", ("IPAddr('%s').inNetwork((IPAddr('%s'), %d))", at, nt, b), inside,
        lambda: a.inNetwork((IP(R.v4_raw(N)), b)))
-  k.eq("ipv4-net:inNetwork-tuple", ("IPAddr('%s').inNetwork(('%s', %d))", at, nt, b), inside, a.inNetwork, (nt, b))
+  k.eq("ipv4-net:inNetwork", ("IPAddr('%s').inNetwork(('%s', %d))", at, nt, b), inside, a.inNetwork, (nt, b))
   # other networks of the same prefix length (mostly non-members)
   others = [x & M for x in V4_OTHER]
   if b >= 1:
@@ -204,8 +204,8 @@ def chk_v4net (case, k):
   for X in others:
     want = R.v4_contains(X, b, n)
     xt = R.v4_text(X)
-    k.eq("ipv4-net:inNetwork-str", ("IPAddr('%s').inNetwork('%s/%d')", at, xt, b), want, a.inNetwork, "%s/%d" % (xt, b))
-    k.eq("ipv4-net:inNetwork-tuple", ("IPAddr('%s').inNetwork(('%s', %d))", at, xt, b), want, a.inNetwork, (xt, b))
+    k.eq("ipv4-net:inNetwork", ("IPAddr('%s').inNetwork('%s/%d')", at, xt, b), want, a.inNetwork, "%s/%d" % (xt, b))
+    k.eq("ipv4-net:inNetwork", ("IPAddr('%s').inNetwork(('%s', %d))", at, xt, b), want, a.inNetwork, (xt, b))
   # get_network
   for arg in (b, mt):
     k.eq("ipv4-net:get_network", ("IPAddr('%s').get_network(%r)", at, arg), (("IPAddr", R.v4_raw(N)), b),
@@ -267,17 +267,18 @@ V6_EXTRA = [[0x2001, 0xdb8, 0x85a3, 0, 0, 0x8a2e, 0x370, 0x7334], [0x2001, 0xdb8
             [0xfec0, 0, 0, 0, 0, 0, 0, 1], [0x00ff, 0, 0, 0, 0, 0, 0, 1], [0x0db8, 0x00a0, 0x000f, 0x1000, 0x0100, 0x0010, 0x0001, 0]]
 
 def v6_parts (th):
-  if th: return [["tern", a, b] for a in range(3) for b in range(3)] + [["pat", f] for f in (0xffff, 0x0db8)] + [["extra"]]
-  return [["pat", f] for f in (1, 0xabcd, 0xffff)] + [["extra"]]
+  if th: return [["tern", a, b, c] for a in range(3) for b in range(3) for c in range(3)] + \
+                [["pat", f, hi] for f in (0xffff, 0x0db8) for hi in range(8)] + [["extra"]]
+  return [["pat", f, hi] for f in (1, 0xabcd, 0xffff) for hi in range(8)] + [["extra"]]
 
 def v6_values (part):
   if part[0] == "pat":
-    for pat in range(256):
+    for pat in range(part[2] * 32, part[2] * 32 + 32):
       yield [part[1] if pat & (0x80 >> i) else 0 for i in range(8)]
   elif part[0] == "tern":
     tok = (0, 1, 0xabcd)
-    for rest in itertools.product(tok, repeat=6):
-      yield [tok[part[1]], tok[part[2]]] + list(rest)
+    for rest in itertools.product(tok, repeat=5):
+      yield [tok[part[1]], tok[part[2]], tok[part[3]]] + list(rest)
   else:
     for g in V6_EXTRA: yield list(g)
 
@@ -343,9 +344,8 @@ def chk_v6val (case, k):
         if not okk: continue
         k.evals += 1
         if s != want:
-          opt = "default" if (zd, sd, v4) == (True, True, None) else \
-                "%s%s%s" % ("" if zd else "-nozerodrop", "" if sd else "-nosectiondrop", "" if v4 is None else "-ipv4=%s" % v4)
-          k.bad("ipv6-to_str:" + opt.lstrip("-"), "IPAddr6.from_raw(%s).to_str(zero_drop=%s, section_drop=%s, ipv4=%s) = %r, expected %r"
+          opt = "default" if (zd, sd, v4) == (True, True, None) else "options"
+          k.bad("ipv6-to_str:" + opt, "IPAddr6.from_raw(%s).to_str(zero_drop=%s, section_drop=%s, ipv4=%s) = %r, expected %r"
                 % (raw.hex(), zd, sd, v4, s, want))
         k.obs.append(s)
         k.eq("ipv6-roundtrip", ("IPAddr6(%r).raw (text printed by to_str(%s,%s,%s))", s, zd, sd, v4), raw, lambda: I6(s).raw)
@@ -385,13 +385,13 @@ def chk_v6net (case, k):
   netobj = I6.from_raw(R.v6_raw(N))
   inside = R.v6_contains(N, b, n)
   cidr = "%s/%d" % (nt, b)
-  k.eq("ipv6-net:in_network-str", ("IPAddr6('%s').in_network('%s')", at, cidr), inside, a.in_network, cidr)
-  k.eq("ipv6-net:in_network-args-bits", ("IPAddr6('%s').in_network('%s', %d)", at, nt, b), inside, a.in_network, nt, b)
-  k.eq("ipv6-net:in_network-args-bits", ("IPAddr6('%s').in_network(IPAddr6('%s'), %d)", at, nt, b), inside, a.in_network, netobj, b)
-  k.eq("ipv6-net:in_network-args-mask", ("IPAddr6('%s').in_network('%s', '%s')", at, nt, mt), inside, a.in_network, nt, mt)
-  k.eq("ipv6-net:in_network-str-mask", ("IPAddr6('%s').in_network('%s/%s')", at, nt, mt), inside, a.in_network, nt + "/" + mt)
-  k.eq("ipv6-net:in_network-tuple", ("IPAddr6('%s').in_network(('%s', %d))", at, nt, b), inside, a.in_network, (nt, b))
-  k.eq("ipv6-net:in_network-tuple", ("IPAddr6('%s').in_network((IPAddr6('%s'), %d))", at, nt, b), inside, a.in_network, (netobj, b))
+  k.eq("ipv6-net:in_network", ("IPAddr6('%s').in_network('%s')", at, cidr), inside, a.in_network, cidr)
+  k.eq("ipv6-net:in_network", ("IPAddr6('%s').in_network('%s', %d)", at, nt, b), inside, a.in_network, nt, b)
+  k.eq("ipv6-net:in_network", ("IPAddr6('%s').in_network(IPAddr6('%s'), %d)", at, nt, b), inside, a.in_network, netobj, b)
+  k.eq("ipv6-net:in_network", ("IPAddr6('%s').in_network('%s', '%s')", at, nt, mt), inside, a.in_network, nt, mt)
+  k.eq("ipv6-net:in_network", ("IPAddr6('%s').in_network('%s/%s')", at, nt, mt), inside, a.in_network, nt + "/" + mt)
+  k.eq("ipv6-net:in_network", ("IPAddr6('%s').in_network(('%s', %d))", at, nt, b), inside, a.in_network, (nt, b))
+  k.eq("ipv6-net:in_network", ("IPAddr6('%s').in_network((IPAddr6('%s'), %d))", at, nt, b), inside, a.in_network, (netobj, b))
   others = [x & M for x in V6_OTHER]
   if b >= 1:
     others.append(N ^ (1 << (128 - b)))
@@ -399,8 +399,8 @@ def chk_v6net (case, k):
   for X in others:
     want = R.v6_contains(X, b, n)
     xt = R.v6_fmt(X)
-    k.eq("ipv6-net:in_network-str", ("IPAddr6('%s').in_network('%s/%d')", at, xt, b), want, a.in_network, "%s/%d" % (xt, b))
-    k.eq("ipv6-net:in_network-tuple", ("IPAddr6('%s').in_network(('%s', %d))", at, xt, b), want, a.in_network, (xt, b))
+    k.eq("ipv6-net:in_network", ("IPAddr6('%s').in_network('%s/%d')", at, xt, b), want, a.in_network, "%s/%d" % (xt, b))
+    k.eq("ipv6-net:in_network", ("IPAddr6('%s').in_network(('%s', %d))", at, xt, b), want, a.in_network, (xt, b))
   want = (("IPAddr6", R.v6_raw(N)), b)
   k.eq("ipv6-net:parse_cidr", ("IPAddr6.parse_cidr('%s')", cidr), want, _pc6, I6.parse_cidr, cidr)
   k.eq("ipv6-net:parse_cidr-mask", ("IPAddr6.parse_cidr('%s/%s')", nt, mt), want, _pc6, I6.parse_cidr, nt + "/" + mt)
@@ -918,6 +918,7 @@ SEGS["law"] = (law_parts, law_cases, chk_law)
 # ------------------------------------------------------------------------------------
 # driver
 # ------------------------------------------------------------------------------------
+COARSE = ("v4net", "v6net")     # outcome digests of these segments omit the address-specific values (memory)
 SEG_ORDER = ["v4ctor", "v4net", "v6val", "v6net", "v6text", "bad", "eth", "dpid", "law"]
 
 def _worker (item):
@@ -936,9 +937,9 @@ def _worker (item):
     ncases += 1
     rep.evaluations += k.evals
     rep.transitions += k.calls
-    rep.outcome((seg, k.obs))
+    rep.outcome((seg, case[-1], [x if isinstance(x, (bool, int)) else type(x).__name__ for x in k.obs]) if seg in COARSE else (seg, k.obs))
     for key, what in k.viol:
-      rep.violation(key, what, dict(seg=seg, case=case))
+      rep.violation(key, what, dict(seg=seg, case=case, key=key))
     if ncases == 1 and (part == parts(th)[0] or part == parts(th)[-1]):
       rep.sample(dict(segment=seg, case=case, observed=[repr(x)[:80] for x in k.obs[:8]], failed_clauses=[v[0] for v in k.viol][:4]))
   rep.state_count = ncases
@@ -994,7 +995,11 @@ def replay (cfg, data):
   k = K()
   SEGS[seg][2](case, k)
   lines = ["segment %s, case %r" % (seg, case), "calls into pox: %d, oracle clauses evaluated: %d" % (k.calls, k.evals)]
+  want = data.get("key")
+  hit = False
   for key, what in k.viol:
-    lines.append("  FAILED %s: %s" % (key, what))
+    mine = want is None or key == want
+    hit = hit or mine
+    lines.append("  %s %s: %s" % ("FAILED" if mine else "(also fails, other finding)", key, what))
   if not k.viol: lines.append("  all clauses hold")
-  return bool(k.viol), "\n".join(lines)
+  return hit, "\n".join(lines)
